@@ -26,6 +26,14 @@ class H:
                     best = e
         return best
 
+    def first(self):
+        best = None
+        for _, es in self.g:
+            for e in es:
+                if best is None or e.timestamp < best.timestamp:
+                    best = e
+        return best
+
     def added(self, gcode, e):
         gs = [[g, list(es)] for g, es in self.g]
         for ge in gs:
